@@ -108,11 +108,58 @@ func runBig(t *testing.T, run *vh.Run, bc BigCase) {
 	_ = pb.Receiver{}
 }
 
+// runManyExpired: a LARGE log (n entries) whose entries have all expired must be empty after ONE garbage collection,
+// however long that collection takes ("entries are dropped by garbage collection after their expiry"; a query never
+// returns an expired entry after a GC). Real time, no virtual clock: the collection of a large log takes real
+// milliseconds, also while another goroutine holds the log for a full-state marshal.
+func runManyExpired(t *testing.T, run *vh.Run, n int, contend bool) {
+	js := map[string]any{"big_n": -n}
+	l, err := nflog.New(nflog.Options{Retention: time.Millisecond, Metrics: prometheus.NewRegistry()})
+	if err != nil {
+		t.Fatalf("nflog.New: %v", err)
+	}
+	for i := 0; i < n; i++ {
+		if err := l.Log(receivers[i%2], fmt.Sprintf("{}:{alertname=\"e%d\"}", i), []uint64{uint64(i)}, nil, nil, 0); err != nil {
+			t.Fatalf("Log: %v", err)
+		}
+	}
+	time.Sleep(5 * time.Millisecond) // every entry is past its expiry now
+	done := make(chan struct{})
+	if contend {
+		go func() {
+			defer close(done)
+			for i := 0; i < 3; i++ {
+				_, _ = l.MarshalBinary()
+			}
+		}()
+	} else {
+		close(done)
+	}
+	removed, err := l.GC()
+	<-done
+	if err != nil {
+		run.Violate("gc-fails-on-large-log", err.Error(), js)
+		return
+	}
+	b, _ := l.MarshalBinary()
+	if len(b) != 0 { // (removed may be below n: with a 1 ms retention a descheduled Log call stores nothing)
+		run.Violate("expired-entries-survive-gc", fmt.Sprintf("a log of %d expired entries: one GC removed %d, %d bytes of state remain (contending marshal: %v)", n, removed, len(b), contend), js)
+	}
+	run.Count("large_expired_logs", fmt.Sprintf("%d entries collected by one GC (contending marshal: %v)", n, contend))
+}
+
 func bigPart(t *testing.T, env vh.Env, run *vh.Run, replay *BigCase) {
 	if replay != nil {
+		if replay.N < 0 {
+			runManyExpired(t, run, -replay.N, true)
+			return
+		}
 		runBig(t, run, *replay)
 		return
 	}
+	runManyExpired(t, run, 5000, true)
+	runManyExpired(t, run, 200000, false)
+	runManyExpired(t, run, 400000, true)
 	for _, n := range []int{17, 1000, 6000, 7000, 10000, 70000, 200000} {
 		runBig(t, run, BigCase{N: n})
 	}
